@@ -108,6 +108,12 @@ func genDesc(r *vf.Rand, i int) Desc {
 			prog.Prog{Nodes: []prog.Node{arg, {Op: "reshuffle", In: []int{0}}, {Op: "repartition", In: []int{0}, Exprs: []prog.Expr{{K: "const", A: 0}}}, {Op: "cogroup", In: []int{1, 2}}}})
 	}
 	n := r.Range(2, 6)
+	if i%5 == 4 {
+		// directed: the Result is discarded twice (its tasks are then already lost when the second
+		// Discard meets them), and used again afterwards
+		d.Steps = append(d.Steps, Step{K: "discard"}, Step{K: "discard"}, Step{K: "shuf", G: 2 + r.Intn(len(d.Consumers)-2)}, Step{K: "scan"})
+		n = r.Range(0, 2)
+	}
 	for j := 0; j < n; j++ {
 		switch k := r.Intn(10); {
 		case k < 2:
